@@ -12,6 +12,8 @@ P = {'id': 'C02',
               'hybrid_roundtrip',
               'hybrid_refuted_nothing_helped',
               'huffman_frame_roundtrip',
+              'legacy_stream_roundtrip',
+              'far1short_old_reader_refuted',
               'rans_compressor_refuted',
               'normalize_not_idempotent'],
  'trusted': ['modelled (M+S): src/compression/dict_zip/compression_types.rs (CompressionType::supports, Match::validate, BitWriter, BitReader, '
@@ -24,16 +26,19 @@ P = {'id': 'C02',
              'SimdLz77Compressor inherent compress/decompress',
              'not modelled: the entropy coders themselves (Huffman, rANS, dictionary: property C01), zstd, lz4 (feature off in the default build: the '
              'factory hands out a compressor that refuses, counted as not obtainable), PA-Zip match selection (suffix-array dictionary, local matcher, '
-             'cost model), the byte-level legacy layouts of Local strategies in PaZipCompressor (unreachable: the local matcher is never fed), '
+             'cost model; Local strategies are unreachable through compress because the local matcher is never fed - their records are exercised '
+             'through the hook), '
              'wall-clock behaviour of the real-time front end (deadlines are forced to both outcomes instead)'],
  'assumptions': ['u8/u16/u32 field types of Match are the predicate wt; usize is 64 bits',
                  'agreement of model and code is established on the generated cases only (encode_matches output bytes, decode_matches on encoded and on '
-                 'arbitrary bytes incl. Err/Panic outcomes, hybrid tag and length, normalised rANS tables, the MAX_*/MIN_* constants)'],
+                 'arbitrary bytes incl. Err/Panic outcomes, hybrid tag and length, normalised rANS tables, the MAX_*/MIN_* constants, PA-Zip record bytes per strategy and decompress on record streams '
+                 'and on arbitrary byte streams)'],
  'level_text': 'Machine-checked Coq theorems about a bit-exact Gallina model of the PA-Zip match codec: BitWriter/BitReader refine a little-endian bit '
                'stream; for all 8 match kinds and every field value decode_match inverts encode_match and reports the same bit count; for every list of '
                'matches decode_matches(encode_matches(ms)) = (ms, total bits), with the exact domain on which the encoder succeeds; every match takes 8..59 '
                'bits. Framing theorems for the compressor layer over arbitrary component codecs: the hybrid selector with its stored-data marker round-trips '
-               'whatever branch it takes; the Huffman header layout round-trips; refutation theorems (with witnesses replayed on the code) for the four '
+               'whatever branch it takes; the Huffman header layout round-trips; every parse of a payload into PA-Zip byte-level records (literal, RLE, '
+               'near/far short/long, global) whose fields fit their casts decodes to the payload; refutation theorems (with witnesses replayed on the code) for the four '
                'defects that were repaired (padding bits read as a match, Far3Long length masked, rANS table normalised twice, hybrid raw fallback tagged 0). '
                'The model is tied to the code by evaluating generated cases in Coq against what the implementation returned. All other compressors and front '
                'ends are decided by a boundary-biased round-trip oracle only, labelled S-only.',
